@@ -1,5 +1,11 @@
 -- Root of the `SynRBLModel` library: executable model (Py/, Model/, Generated/) and proofs (Proofs/, Properties/).
-import SynRBLModel.Py.Dict
-import SynRBLModel.Model.Compare
-import SynRBLModel.Model.Decompose
-import SynRBLModel.Proofs.Compare
+import SynRBLModel.Properties.C01
+import SynRBLModel.Properties.C03
+import SynRBLModel.Properties.C04
+import SynRBLModel.Properties.C05
+import SynRBLModel.Properties.C06
+import SynRBLModel.Properties.C07
+import SynRBLModel.Properties.C08
+import SynRBLModel.Properties.C11
+import SynRBLModel.Properties.C13
+import SynRBLModel.Properties.C18
